@@ -104,3 +104,19 @@ def unary_label(x):
             return 'ADV2'
         return None
     return None
+
+
+def unary_family(x):
+    """the set of labels the statement names for inputs with this mod value (None if it names none)"""
+    head = x
+    while head[0] == 'F':
+        head = head[1]
+    f = head[2]
+    if f is None or f[0] != 'T':
+        return None
+    mod = dict(f[1]).get('mod')
+    if mod == 'adn':
+        return {'ADNext', 'ADNint'}
+    if mod == 'adv':
+        return {'ADV0', 'ADV1', 'ADV2'}
+    return None
